@@ -136,6 +136,23 @@ func runC15(cfg *config, res *monitor.Result) {
 					extra: map[string]any{"config": cfgName, "goroutine": g}}
 				<-start
 				for it := 0; it < per; it++ {
+					if g%4 == 1 && it%5 == 2 {
+						// a faulty feed: the outer message is valid, some nested elements are not; nested access fails
+						// cleanly and the result is closed as usual. Nobody else may be affected by it.
+						bad := corruptNestedInput(r, byte(g*7+it%5))
+						if pi := monitor.Try(func() {
+							if dr, err := dec.Decode(bad); err == nil && dr != nil {
+								_, _ = dr.NestedResults(3)
+								_, _ = dr.NestedResult(4)
+								_, _ = dr.NestedResults(4)
+								_ = dr.Close()
+							}
+						}); pi != nil {
+							x.input = bad
+							x.viol("FaultyFeed", "panic", "decoding / reading a message with corrupt nested elements panicked: "+pi.Value, nil, map[string]any{"frame": pi.Frame})
+						}
+						x.classes["concurrent-faulty-feed/"+cfgName]++
+					}
 					sh := shapes[r.Intn(len(shapes))]
 					// mark is unique per goroutine (mod 256) and iteration parity so foreign values are recognisable
 					mark := byte(g*7 + it%5)
